@@ -34,9 +34,12 @@ theorem geom_keep_covers_marker : geom.marker.length ≤ geom.keep + 1 := by dec
 /-- the kept part leaves room in the buffer: every read gets a non-empty slice -/
 theorem geom_keep_lt_buf : geom.keep < geom.bufSize := by decide
 
-/-- the marker string is assembled from several pieces at run time, so the interpreter
-    binary does not contain it as one literal -/
-theorem geom_marker_assembled : 1 < Ecal.Gen.C20.markerPieces.length := by decide
+/-- `packmarker` is the result of a function call at run time, not a constant expression (which
+    the compiler would fold into one literal inside every interpreter binary). This is only a
+    syntactic fact; the evidence that the REAL interpreter binary satisfies the hypothesis of
+    `scan_finds_archive` is `srcmarker=0` in the process cases (checked per run on the binary
+    built for this GOOS/GOARCH). -/
+theorem geom_marker_built_at_run_time : Ecal.Gen.C20.markerBuiltByCall = true := by decide
 
 set_option maxRecDepth 16384 in
 /-- the model's skip predicate equals Go's `unicode.IsSpace || unicode.IsControl` on every
@@ -51,6 +54,15 @@ obligations here are about the values that WERE extracted. -/
 /-- cli/ecal.go: the first statement of `main` is the call `tool.RunPackedBinary()`, not guarded
     by any condition — a packed executable looks for its archive whatever its command line is -/
 theorem main_runs_packed_first : Ecal.Gen.C20.mainCallsRunPackedFirst = true := by decide
+
+/-- **The file that is scanned is the file that was started**, however it was started (absolute or
+    relative path, symbolic link, found through `$PATH` with or without a same-named file in the
+    working directory): `scannedIsStarted` (Model/Pack.lean) with the regenerated fact "the path is
+    taken from `os.Executable()`". Tied to the code by the real-process cases with these start forms. -/
+theorem locate_started_file (f : StartForm) :
+    scannedIsStarted Ecal.Gen.C20.locateUsesOsExecutable f = true := by
+  have h : Ecal.Gen.C20.locateUsesOsExecutable = true := by decide
+  cases f <;> simp [scannedIsStarted, h]
 
 /-! ## The property -/
 
@@ -115,43 +127,29 @@ theorem scan_eq_spec (rd : Nat → Nat → Nat) (data : List Nat) :
   cases Spec.find geom.marker data <;> rfl
 
 /-- **Totality.** On every file and read schedule the loop terminates (never `hang`: every
-    iteration consumes input), an offset it returns lies inside the file (nothing is indexed
+    iteration consumes input), no slice expression of the loop is out of range (never `panic`: at
+    most `keep < bufSize` bytes are carried over), an offset it returns lies inside the file (it may
+    be the end of the file: an empty section, which the zip reader rejects) (nothing is indexed
     past the data; the skip loop stops at the end of the file), and a file without marker
     makes `RunPackedBinary` fall through to the normal command line. -/
 theorem scan_total (rd : Nat → Nat → Nat) (data : List Nat) :
-    Impl.scan geom rd data ≠ .hang ∧
+    Impl.scan geom rd data ≠ .hang ∧ Impl.scan geom rd data ≠ .panic ∧
     (∀ p, Impl.scan geom rd data = .found p → p ≤ data.length) ∧
     ((∀ j, ¬ occ geom.marker data j) → Impl.scan geom rd data = .notFound) := by
   rw [scan_eq_spec]
   unfold Spec.find
   cases hf : findFirst geom.marker data with
   | none =>
-    refine ⟨by simp, by simp, by simp⟩
+    refine ⟨by simp, by simp, by simp, by simp⟩
   | some i =>
     obtain ⟨h1, _⟩ := findFirst_some hf
     have hb := occ_bound geom_marker_nonempty h1
-    refine ⟨by simp, ?_, ?_⟩
+    refine ⟨by simp, by simp, ?_, ?_⟩
     · intro p hp
       simp only [Option.map_some, Res.found.injEq] at hp
       subst hp
       exact Impl.skipCtl_le _ _ hb
     · intro hno; exact absurd h1 (hno i)
-
-/-- **Every slice expression of the loop is in bounds.** With at most `keep` bytes carried over
-    (`buf[:overlap]`), the window `buf[:overlap+n]` fits the buffer, the kept part
-    `window[len(window)-keep:]` is a valid slice and again has at most `keep` bytes — for every
-    file rest and every read result. (The model's list operations are total; this is the
-    statement that the Go slices they stand for cannot panic.) -/
-theorem loop_slices_in_bounds (rest carry : List Nat) (want : Nat) (h : carry.length ≤ geom.keep) :
-    let n := Impl.readLen (geom.bufSize - carry.length) rest.length want
-    let window := carry ++ rest.take n
-    let keep := min geom.keep window.length
-    window.length ≤ geom.bufSize ∧ keep ≤ window.length ∧
-      (window.drop (window.length - keep)).length ≤ geom.keep := by
-  have h1 := Impl.readLen_le_room (geom.bufSize - carry.length) rest.length want
-  have h2 := geom_keep_lt_buf
-  simp only [List.length_append, List.length_take, List.length_drop]
-  omega
 
 /-- non-vacuity of the last part: a plain binary that ends inside a marker -/
 example : Impl.scan geom Impl.fullReads [1, 2, 3, 10, 35, 35, 35, 35, 69, 67] = .notFound := by decide
@@ -214,33 +212,60 @@ example : Impl.scan geom Impl.fullReads (layout geom.marker [1, 2] ([13, 10] ++ 
     = .found (2 + geom.marker.length + 2) :=
   scan_skips_whitespace _ _ _ _ _ (by decide) (by decide) (by decide)
 
+/-! ## After the scan: exit, fall through, fail -/
+
+/-- **A packed executable runs its entry.** Same hypotheses as `scan_finds_archive`, plus the named
+    facts about the parts that are not modelled (seek works, the zip reader accepts the archive it is
+    handed — by `archive_exact` exactly the one that was written —, the entry parses): the exit
+    callback is reached with the entry's result. -/
+theorem packed_runs_entry (rd : Nat → Nat → Nat) (bin zip : List Nat) (c : Nat) (cs : List Nat) (a : After)
+    (hzip : zip = c :: cs) (hc : isSkip c = false)
+    (hbin : ∀ j, j < bin.length → ¬ occ geom.marker (bin ++ geom.marker) j)
+    (hseek : a.seekOk = true) (hz : a.zipOk = true) (he : a.entryOk = true) :
+    outcome (Impl.scan geom rd (layout geom.marker bin zip)) a = .exit a.result := by
+  rw [scan_finds_archive rd bin zip c cs hzip hc hbin]
+  simp [outcome, hseek, hz, he]
+
+/-- **It never falls through (or hangs) because of the scan**: for a packed file the only other
+    outcome is `fail`, and only when one of the named facts is false. -/
+theorem packed_never_falls_through (rd : Nat → Nat → Nat) (bin zip : List Nat) (c : Nat) (cs : List Nat) (a : After)
+    (hzip : zip = c :: cs) (hc : isSkip c = false)
+    (hbin : ∀ j, j < bin.length → ¬ occ geom.marker (bin ++ geom.marker) j) :
+    outcome (Impl.scan geom rd (layout geom.marker bin zip)) a = .exit a.result ∨
+    (outcome (Impl.scan geom rd (layout geom.marker bin zip)) a = .fail ∧
+      (a.seekOk = false ∨ a.zipOk = false ∨ a.entryOk = false)) := by
+  rw [scan_finds_archive rd bin zip c cs hzip hc hbin]
+  cases h1 : a.seekOk <;> cases h2 : a.zipOk <;> cases h3 : a.entryOk <;> simp [outcome, h1, h2, h3]
+
+/-- **A plain interpreter binary starts the normal command line**: no marker in the file ⇒ fall through,
+    whatever the other facts are. -/
+theorem plain_binary_falls_through (rd : Nat → Nat → Nat) (data : List Nat) (a : After)
+    (h : ∀ j, ¬ occ geom.marker data j) : outcome (Impl.scan geom rd data) a = .fallThrough := by
+  rw [(scan_total rd data).2.2.2 h]; rfl
+
+example : outcome (Impl.scan geom Impl.fullReads (layout geom.marker [1, 2] [80, 75]))
+    { seekOk := true, zipOk := false, entryOk := true, result := 5 } = .fail := by decide
+
 /-! ## Packing into a target that already exists -/
 
 /-- pack.go opens the target with `os.Create` (or `O_TRUNC`): old content is discarded -/
 theorem pack_truncates : Ecal.Gen.C20.targetOpenTruncates = true := by decide
 
+/-! ### Witnesses and definitional facts (NOT obligations on the code: they are `example`s)
+
+`pack_truncates` above is the obligation; what follows explains what it buys (`writeFrom0 .truncate`
+returns the new content by definition) and what the non-truncating variant would do. -/
+
 /-- **The layout has no memory.** With a truncating open, whatever the target contained before —
     nothing, an unrelated file of any length, or the result of an earlier pack of another project
     onto another binary — after packing it is exactly `bin₂ ++ marker ++ zip₂`. -/
-theorem pack_overwrites (M old bin₁ zip₁ bin₂ zip₂ : List Nat) :
+example (M old bin₁ zip₁ bin₂ zip₂ : List Nat) :
     pack .truncate M (pack .truncate M old bin₁ zip₁) bin₂ zip₂ = layout M bin₂ zip₂ ∧
     pack .truncate M old bin₂ zip₂ = layout M bin₂ zip₂ := ⟨rfl, rfl⟩
 
-/-- Without truncation an existing longer target keeps a non-empty stale tail behind the new
-    archive: the file is the layout of `zip ++ tail`, not of `zip`. -/
-theorem pack_keepOld_stale_tail (M old bin zip : List Nat) (h : (layout M bin zip).length < old.length) :
-    pack .keepOld M old bin zip = layout M bin (zip ++ old.drop (layout M bin zip).length) ∧
-    old.drop (layout M bin zip).length ≠ [] := by
-  constructor
-  · simp [pack, writeFrom0, layout, List.append_assoc]
-  · intro hnil
-    have := congrArg List.length hnil
-    simp only [List.length_drop, List.length_nil] at this
-    omega
-
 /-- … and the zip reader is then handed the archive PLUS the stale tail (which ends in the old
     archive's end record): not the archive that was packed. Same hypotheses as `archive_exact`. -/
-theorem keepOld_archive_not_exact (rd : Nat → Nat → Nat) (old bin zip : List Nat) (c : Nat) (cs : List Nat)
+example (rd : Nat → Nat → Nat) (old bin zip : List Nat) (c : Nat) (cs : List Nat)
     (hzip : zip = c :: cs) (hc : isSkip c = false)
     (hbin : ∀ j, j < bin.length → ¬ occ geom.marker (bin ++ geom.marker) j)
     (h : (layout geom.marker bin zip).length < old.length) :
@@ -260,7 +285,7 @@ theorem keepOld_archive_not_exact (rd : Nat → Nat → Nat) (old bin zip : List
 
 /-- negative witness, two steps: a big project, then a small one into the same target, without
     truncation — the file is not the layout of the second pack; with truncation it is -/
-theorem keepOld_two_step_witness :
+example :
     pack .keepOld [10, 35, 10] (pack .keepOld [10, 35, 10] [] [1, 2] [80, 75, 9, 9, 9, 9, 80, 75, 5, 6]) [3] [80, 75, 5, 6]
       ≠ layout [10, 35, 10] [3] [80, 75, 5, 6] ∧
     pack .truncate [10, 35, 10] (pack .truncate [10, 35, 10] [] [1, 2] [80, 75, 9, 9, 9, 9, 80, 75, 5, 6]) [3] [80, 75, 5, 6]
@@ -273,17 +298,17 @@ theorem keepOld_two_step_witness :
 
 /-- the marker crosses the block boundary, the first block has no `#`: the old scanner misses
     the archive although the file contains the marker (the specification finds it at 10) -/
-theorem old_scanner_misses :
+example :
     Old.scan 8 5 [10, 35, 10] (layout [10, 35, 10] (List.replicate 7 97) [80, 75]) = .notFound ∧
     Spec.find [10, 35, 10] (layout [10, 35, 10] (List.replicate 7 97) [80, 75]) = some 10 := by decide
 
 /-- the marker ends exactly at the end of the candidate (`buf ++ buf2`): the old skip loop
     indexes one past it (Go: index out of range; real geometry: |bin| = 4107 with `#`) -/
-theorem old_scanner_indexes_past_candidate :
+example :
     Old.scan 8 5 [10, 35, 10] (layout [10, 35, 10] (35 :: List.replicate 9 97) [80, 75]) = .panic := by decide
 
 /-- the loop of today's code with the same reduced sizes finds it -/
-theorem repaired_scanner_finds_it :
+example :
     Impl.scan { bufSize := 8 + 5, keep := 2, marker := [10, 35, 10] } Impl.fullReads
       (layout [10, 35, 10] (List.replicate 7 97) [80, 75]) = .found 10 ∧
     Impl.scan { bufSize := 8 + 5, keep := 2, marker := [10, 35, 10] } Impl.fullReads
